@@ -469,7 +469,115 @@ def run(ctx):
                    f.site, f.detail + " (reached from %s)" % hs[0].split(".")[1],
                    render_path(f.path.events) if f.path else None)
     ctx.ob("R17.escape", "handler exits analysed", True, "", "%d paths" % len(paths))
+    _text_rule(ctx)
     ctx.assume("identifiers in commands are strings (asserts on them are assumed)")
+
+
+def _text_rule(ctx):
+    """R17.text: client text that is bound to SQL parameters was checked for
+    UTF-8 encodability first.  JSON admits lone surrogates ("\\ud800"); Python
+    keeps them in the str and sqlite3 raises UnicodeEncodeError when it binds
+    one -- out of the handler, past the `except Error`."""
+    import ast as _ast
+    from ..repo import dotted
+    model = ctx.model
+    repo = ctx.repo
+    ctx.rule("R17.text", "every command whose strings reach SQL parameters passes a check "
+             "that answers text which UTF-8 cannot encode with a protocol error, before the "
+             "dispatch")
+    # (1) which handlers bind client text
+    binders = {}
+    first_sql_line = {}
+    for p in model.paths("ws:onMessage"):
+        for e, _ in all_events(p, ("sql",)):
+            if any(isinstance(v, tuple) and is_client_value(v) for v in (e.get("params") or ())):
+                binders.setdefault(handler_of(p) or "onMessage", set()).add(e["site"][:2])
+    nb = sum(len(v) for v in binders.values())
+    ctx.require("R17.text", nb, 8, "statements binding client text")
+    # (2) the check: a try whose body .encode()s (strictly, UTF-8) and whose
+    # handler for the Unicode error raises the protocol Error -- in the message
+    # callback itself or in a function it calls before the dispatch
+    ws = repo.classes["WebSocketServer"]
+    mod = ws[0]
+    on_msg = ws[1]["methods"]["onMessage"].node
+
+    def is_check(fn_node):
+        for n in _ast.walk(fn_node):
+            if not isinstance(n, _ast.Try):
+                continue
+            enc = False
+            for b in n.body:
+                for c in _ast.walk(b):
+                    if isinstance(c, _ast.Call) and isinstance(c.func, _ast.Attribute) and \
+                            c.func.attr == "encode":
+                        args = [a.value for a in c.args if isinstance(a, _ast.Constant)]
+                        kw = dict((k.arg, getattr(k.value, "value", None)) for k in c.keywords)
+                        codec = (args[0] if args else kw.get("encoding", "utf-8")) or "utf-8"
+                        errors = args[1] if len(args) > 1 else kw.get("errors", "strict")
+                        if str(codec).lower().replace("-", "") == "utf8" and errors == "strict":
+                            enc = True
+            if not enc:
+                continue
+            for h in n.handlers:
+                names = []
+                if isinstance(h.type, _ast.Tuple):
+                    names = [(dotted(x) or "").split(".")[-1] for x in h.type.elts]
+                elif h.type is not None:
+                    names = [(dotted(h.type) or "").split(".")[-1]]
+                if not (set(names) & {"UnicodeEncodeError", "UnicodeError", "ValueError",
+                                      "Exception"}):
+                    continue
+                for r in _ast.walk(h):
+                    if isinstance(r, _ast.Raise) and r.exc is not None:
+                        d = dotted(r.exc.func) if isinstance(r.exc, _ast.Call) else dotted(r.exc)
+                        if d and d.split(".")[-1] == "Error":
+                            return n
+        return None
+
+    # first dispatch: the first call of a handler method in source order
+    handlers = set(h for hs in dispatch_table(model).values() for h in hs)
+    first_dispatch = None
+    for n in _ast.walk(on_msg):
+        if isinstance(n, _ast.Call):
+            d = dotted(n.func) or ""
+            if d.startswith("self.") and d[5:] in handlers:
+                first_dispatch = n.lineno if first_dispatch is None else min(first_dispatch,
+                                                                             n.lineno)
+            if isinstance(n.func, _ast.Call) and (dotted(n.func.func) or "") == "getattr":
+                first_dispatch = n.lineno if first_dispatch is None else min(first_dispatch,
+                                                                             n.lineno)
+    found = None
+    t = is_check(on_msg)
+    if t is not None and (first_dispatch is None or t.lineno < first_dispatch):
+        found = "%s:%d (in onMessage)" % (mod.path, t.lineno)
+    if found is None:
+        for n in _ast.walk(on_msg):
+            if not isinstance(n, _ast.Call) or (first_dispatch is not None and
+                                                n.lineno >= first_dispatch):
+                continue
+            d = dotted(n.func) or ""
+            callee = None
+            if d.startswith("self.") and d[5:] in ws[1]["methods"]:
+                callee = ws[1]["methods"][d[5:]].node
+            elif d in mod.functions:
+                callee = mod.functions[d].node
+            else:
+                for m2 in repo.modules.values():
+                    if d.split(".")[-1] in m2.functions and d.split(".")[-1] in mod.imports:
+                        callee = m2.functions[d.split(".")[-1]].node
+            if callee is not None and is_check(callee) is not None:
+                found = "%s:%d (%s, called before the dispatch)" % (mod.path, n.lineno, d)
+                break
+    ok = found is not None
+    ctx.ob("R17.text", "client text bound to SQL parameters is checked for UTF-8 "
+           "encodability before the dispatch", ok,
+           "%s:%d" % (mod.path, on_msg.lineno),
+           ("checked at %s; %d statements in %d handlers bind client text" % (
+               found, nb, len(binders))) if ok else
+           "%d statements in %d handlers (%s) bind strings of the client's message to SQL "
+           "parameters unchecked: a JSON string with a lone surrogate (\"\\ud800\") makes "
+           "sqlite3 raise UnicodeEncodeError out of the handler -- no answer is sent and "
+           "Autobahn drops the connection" % (nb, len(binders), ", ".join(sorted(binders))))
 
 
 def once_flag_of(model, name):
